@@ -2,7 +2,7 @@
 # tools/reeval_seed.sh <Cxx> <k> "<note what was strengthened>" <check ids...> : after strengthening a check, re-run demo + quick checks for one
 # seed, keep the earlier TESTS line, record the first (missed) verdict in meta.json["strengthened"].
 P=$1; K=$2; NOTE=$3; shift 3
-SD=/tmp/seed_$P/SEED/$K
+SD=${SEEDROOT:-/tmp/seed_}$P/SEED/$K
 OLD=$(grep "^RESULT" $SD/eval.txt | tail -1)
 TESTS=$(grep "^TESTS" $SD/eval.txt | tail -1)
 /verif/tools/eval_seed.sh $SD "$@" > $SD/eval.new 2>&1
